@@ -49,15 +49,50 @@ fn make_rng(seed: u64, gen: &str, n: usize, stream: u64, fault: &Value) -> SimRn
     let mut r = if fault.is_null() {
         SimRng::new(seed, &l)
     } else {
-        SimRng::zero_window(
-            seed,
-            &l,
-            fault["at"].as_u64().unwrap() as usize,
-            fault["width"].as_u64().unwrap() as usize,
-        )
+        let at = fault["at"].as_u64().unwrap() as usize;
+        let width = fault["width"].as_u64().unwrap() as usize;
+        // multiples of the scalar modulus as 64-byte little-endian integers: non-zero bytes that
+        // reduce to the zero scalar
+        let q = refc::bad::scalar_q();
+        let wide = |lo: &[u8], hi: &[u8]| -> Vec<u8> {
+            let mut b = lo.to_vec();
+            b.extend_from_slice(hi);
+            b
+        };
+        let twoq = {
+            let mut b = vec![0u8; 64];
+            let mut carry = 0u16;
+            for i in 0..33 {
+                let v = if i < 32 { 2 * q[i] as u16 } else { 0 } + carry;
+                b[i] = v as u8;
+                carry = v >> 8;
+            }
+            b
+        };
+        let f = match fault["kind"].as_str().unwrap_or("zeros") {
+            "zeros" => crate::rng::EntropyFault::Zeros,
+            "q" => crate::rng::EntropyFault::Bytes(wide(&q, &[0u8; 32])),
+            "hiq" => crate::rng::EntropyFault::Bytes(wide(&[0u8; 32], &q)),
+            "2q" => crate::rng::EntropyFault::Bytes(twoq),
+            "repeat" => crate::rng::EntropyFault::RepeatPrevious,
+            _ => crate::harness_error("C19: unknown entropy fault kind"),
+        };
+        let mut m = std::collections::BTreeMap::new();
+        for i in at..at + width {
+            m.insert(i, f.clone());
+        }
+        SimRng::with_faults(seed, &l, m)
     };
     r.budget = 1 << 14;
     r
+}
+
+fn fault_counter(fault: &Value) -> &'static str {
+    match fault["kind"].as_str().unwrap_or("zeros") {
+        "zeros" => "fault.entropy_zero_draw",
+        "repeat" => "fault.entropy_repeated_draw",
+        _ => "fault.entropy_modulus_multiple_draw",
+    }
 }
 
 fn roundtrip<T: Serialize + DeserializeOwned>(o: &mut Outcome, site: &str, v: &T) -> Trace {
@@ -122,7 +157,7 @@ fn gen_keypair<const N: usize>(o: &mut Outcome, seed: u64, stream: u64, fault: &
     let mut rng = make_rng(seed, "keypair", N, stream, fault);
     let kp = KeyPair::<N>::new(&mut rng);
     o.events += rng.draws.len() as u64;
-    o.add("fault.entropy_zero_draw", rng.faults_fired as u64);
+    o.add(fault_counter(fault), rng.faults_fired as u64);
     if baseline_draws > 0 && rng.draws.len() as u64 > baseline_draws {
         o.bump("probe.zero_scalar_retry_taken");
     }
@@ -226,7 +261,7 @@ fn gen_pedersen_g1<const N: usize>(o: &mut Outcome, seed: u64, stream: u64, faul
     let mut rng = make_rng(seed, "pedersen-g1", N, stream, fault);
     let p = PedersenParameters::<G1Projective, N>::new(&mut rng);
     o.events += rng.draws.len() as u64;
-    o.add("fault.entropy_zero_draw", rng.faults_fired as u64);
+    o.add(fault_counter(fault), rng.faults_fired as u64);
     let t = roundtrip(o, &site, &p);
     check_pedersen::<G1Projective>(o, &site, &t, true);
     // usable: a commitment opens
@@ -243,7 +278,7 @@ fn gen_pedersen_g2<const N: usize>(o: &mut Outcome, seed: u64, stream: u64, faul
     let mut rng = make_rng(seed, "pedersen-g2", N, stream, fault);
     let p = PedersenParameters::<G2Projective, N>::new(&mut rng);
     o.events += rng.draws.len() as u64;
-    o.add("fault.entropy_zero_draw", rng.faults_fired as u64);
+    o.add(fault_counter(fault), rng.faults_fired as u64);
     let t = roundtrip(o, &site, &p);
     check_pedersen::<G2Projective>(o, &site, &t, false);
     let mut r2 = SimRng::new(seed, &format!("c19/commit-g2/{}/{}", N, stream));
@@ -293,7 +328,7 @@ fn gen_range(o: &mut Outcome, seed: u64, stream: u64, fault: &Value) {
     let mut rng = make_rng(seed, "range", 0, stream, fault);
     let rp = RangeConstraintParameters::new(&mut rng);
     o.events += rng.draws.len() as u64;
-    o.add("fault.entropy_zero_draw", rng.faults_fired as u64);
+    o.add(fault_counter(fault), rng.faults_fired as u64);
     let t = roundtrip(o, site, &rp);
     check_range_params(o, site, &rp, &t);
 }
@@ -303,7 +338,7 @@ fn gen_merchant(o: &mut Outcome, seed: u64, stream: u64, fault: &Value) {
     let mut rng = make_rng(seed, "merchant", 0, stream, fault);
     let cfg = zkabacus_crypto::merchant::Config::new(&mut rng);
     o.events += rng.draws.len() as u64;
-    o.add("fault.entropy_zero_draw", rng.faults_fired as u64);
+    o.add(fault_counter(fault), rng.faults_fired as u64);
     let kt = roundtrip(o, site, cfg.signing_keypair());
     let _ = check_keypair_trace(o, site, &kt);
     let pt = roundtrip(o, site, cfg.revocation_commitment_parameters());
@@ -370,6 +405,14 @@ impl Prop for C19 {
                             v.push(json!({"gen": gen, "n": n, "seed": seed, "stream": stream,
                                           "fault": {"at": at, "width": width}, "baseline": d}));
                         }
+                        // non-zero draws that reduce to zero, and a stuck generator
+                        for (kind, width) in [("q", 1usize), ("hiq", 1), ("2q", 1), ("repeat", 1), ("repeat", 2)] {
+                            if gen != "keypair" && kind != "repeat" && kind != "q" {
+                                continue;
+                            }
+                            v.push(json!({"gen": gen, "n": n, "seed": seed, "stream": stream,
+                                          "fault": {"at": at, "width": width, "kind": kind}, "baseline": d}));
+                        }
                     }
                 }
             }
@@ -396,6 +439,13 @@ impl Prop for C19 {
                     v.push(json!({"gen": "range", "n": 0, "seed": seed, "stream": stream,
                                   "fault": {"at": at, "width": width}, "baseline": d}));
                 }
+                for kind in ["q", "hiq", "2q", "repeat"] {
+                    if !in_key && !(tier == Tier::Thorough && at % 4 == 0) && kind != ["q", "hiq", "2q", "repeat"][at % 4] {
+                        continue;
+                    }
+                    v.push(json!({"gen": "range", "n": 0, "seed": seed, "stream": stream,
+                                  "fault": {"at": at, "width": 1, "kind": kind}, "baseline": d}));
+                }
             }
             // merchant configuration: healthy, plus windows at a share of its draws
             let d = baseline_draws(seed, "merchant", 0, stream);
@@ -411,6 +461,9 @@ impl Prop for C19 {
                 let width = 1 + sch.usize(3);
                 v.push(json!({"gen": "merchant", "n": 0, "seed": seed, "stream": stream,
                               "fault": {"at": at, "width": width}, "baseline": d}));
+                let kind = ["q", "hiq", "2q", "repeat"][sch.usize(4)];
+                v.push(json!({"gen": "merchant", "n": 0, "seed": seed, "stream": stream,
+                              "fault": {"at": at, "width": 1, "kind": kind}, "baseline": d}));
             }
         }
         CaseSet {
@@ -466,6 +519,7 @@ impl Prop for C19 {
             n as u64,
             fault["at"].as_u64().unwrap_or(u64::MAX),
             fault["width"].as_u64().unwrap_or(0),
+            crate::hash_str(fault["kind"].as_str().unwrap_or("zeros")),
             stream,
         ]);
         o.log_hash = mix(&[o.shape, o.events, o.violations.len() as u64]);
@@ -497,6 +551,6 @@ impl Prop for C19 {
         ]
     }
     fn required_probes(&self, _tier: Tier) -> Vec<&'static str> {
-        vec!["probe.zero_scalar_retry_taken", "fault.entropy_zero_draw", "fault.entropy_crafted_scalar_draw", "probe.crafted_identity_sigma2"]
+        vec!["probe.zero_scalar_retry_taken", "fault.entropy_zero_draw", "fault.entropy_crafted_scalar_draw", "probe.crafted_identity_sigma2", "fault.entropy_modulus_multiple_draw", "fault.entropy_repeated_draw"]
     }
 }
